@@ -45,7 +45,8 @@ NI long down(int d, body_fn f, int v, int round)
 	return x;
 }
 NI double fp_leaf(double a, float b, int c) { return a * (P_K2 + 0.5) + b / (c + 1.5); }
-NI long double fp_ld(long double x, int n) { return x * (P_K3 + 0.25L) + n; }
+/* the quotient needs all 64 mantissa bits of the x87 format: a result that went through a double is another number */
+NI long double fp_ld(long double x, int n) { return x * (P_K3 + 0.25L) / 7.0L + n; }
 NI struct dd fp_dd(double a, double b) { struct dd r = { a * 0.5 + b, b * 0.25 + P_K1 }; return r; }
 NI struct ll fp_ll(long a, long b) { struct ll r = { a + P_K2, b * 3 }; return r; }
 NI struct big fp_big(int n) { struct big r; for (int i = 0; i < 5; i++) r.v[i] = n * (i + P_K3); return r; }
@@ -1039,6 +1040,39 @@ static void bt_print(const char *where)
 	}
 	printf(" (%d frames)\n", n);
 }
+/* deep stacks and large requests: backtrace(buf, ask) on a recursion of 100-260 frames, ask = 16..512 */
+static void *bt_frames[512];
+static volatile int bt_sink;
+NI int bt_dive(int n, int ask)
+{
+	int r;
+	if (n <= 0)
+		return backtrace(bt_frames, ask);
+	r = bt_dive(n - 1, ask);
+	bt_sink++; /* no tail call */
+	return r;
+}
+static void bt_deep(int v, int round)
+{
+	static const int depths[] = { 100, 129, 180, 260, 127, 140 }, asks[] = { 16, 64, 128, 129, 200, 384, 512 };
+	int depth = depths[(v * 2 + round + P_K1) % 6];
+	for (unsigned i = 0; i < sizeof(asks) / sizeof(asks[0]); i++) {
+		int n = bt_dive(depth, asks[i]), dives = 0;
+		uint64_t h = 0;
+		for (int k = 0; k < n; k++) {
+			Dl_info di;
+			if (dladdr(bt_frames[k], &di) && di.dli_sname) {
+				dives += !strcmp(di.dli_sname, "bt_dive");
+				for (const char *c = di.dli_sname; *c; c++)
+					h = h * 31 + (unsigned char)*c;
+			}
+			else
+				h = h * 31 + 1;
+		}
+		printf("backtrace depth %d ask %d: %d frames, %d of bt_dive, names %016lx\n", depth, asks[i], n, dives,
+		       (unsigned long)h);
+	}
+}
 NI int bt_cmp(const void *a, const void *b)
 {
 	static int once;
@@ -1059,6 +1093,7 @@ NI long bt_body(int v, int round)
 		raise(SIGUSR2);
 	}
 	bt_print("after");
+	bt_deep(v, round);
 	fp_work(round);
 	return arr[0];
 }
